@@ -22,7 +22,7 @@ type roundTripWorld struct{ prop string }
 
 func (w roundTripWorld) Gen(seed uint64, tier string) core.Scenario {
 	r := core.NewRand(seed)
-	return &RoundTrip{Prop: w.prop, Hist: genAPIHist(r, tier, w.prop == "C01")}
+	return &RoundTrip{Prop: w.prop, Hist: genAPIHist(r, tier, w.prop == "C01", true)}
 }
 
 func (w roundTripWorld) Decode(raw json.RawMessage) (core.Scenario, error) {
